@@ -64,6 +64,25 @@ func callIsValid(name string) (ok bool, pan any) {
 	return names.IsValid(name), nil
 }
 
+// variantOf is the expected text of v with the known deviations applied to its components.
+func variantOf(v *aglVector, multi, remap bool) []int {
+	var t []int
+	for _, p := range v.Parts {
+		c := b2s(p.C)
+		switch {
+		case multi && p.Cls == "glN":
+			t = append(t, 0)
+		case remap && p.Cls == "gl1" && c == "Tcommaaccent":
+			t = append(t, 0x021A)
+		case remap && p.Cls == "gl1" && c == "tcommaaccent":
+			t = append(t, 0x021B)
+		default:
+			t = append(t, p.Text...)
+		}
+	}
+	return t
+}
+
 // The signature of a ToUnicode disagreement.  It is coarse, and it names one
 // of the two classes of deviation known from the design round ONLY when the
 // observed text is exactly what that deviation alone explains: expected text
@@ -71,23 +90,7 @@ func callIsValid(name string) (ok bool, pan any) {
 // [Tt]commaaccent mapped to U+021A/U+021B.  Anything else keeps a generic
 // signature, so a further defect in the same name is not hidden.
 func aglToTextSig(v *aglVector, got []int) string {
-	variant := func(multi, remap bool) []int {
-		var t []int
-		for _, p := range v.Parts {
-			c := b2s(p.C)
-			switch {
-			case multi && p.Cls == "glN":
-				t = append(t, 0)
-			case remap && p.Cls == "gl1" && c == "Tcommaaccent":
-				t = append(t, 0x021A)
-			case remap && p.Cls == "gl1" && c == "tcommaaccent":
-				t = append(t, 0x021B)
-			default:
-				t = append(t, p.Text...)
-			}
-		}
-		return t
-	}
+	variant := func(multi, remap bool) []int { return variantOf(v, multi, remap) }
 	m, r := sameInts(got, variant(true, false)), sameInts(got, variant(false, true))
 	switch {
 	case m:
@@ -97,21 +100,17 @@ func aglToTextSig(v *aglVector, got []int) string {
 	case sameInts(got, variant(true, true)):
 		return "toUnicode multi-scalar glyphlist entry + toUnicode Tcommaaccent remap"
 	}
-	cls := map[string]bool{}
-	for _, p := range v.Parts {
-		cls[p.Cls] = true
-	}
-	var ks []string
-	for _, k := range []string{"zd", "gl1", "glN", "uni", "u", "none"} {
-		if cls[k] {
-			ks = append(ks, k)
+	// Generic signature: the rule class of the first component that, looked up on its own, is not
+	// mapped as prescribed (known deviations apart); "composition" when every component alone is
+	// right, i.e. suffix removal, splitting or concatenation went wrong.  (Classification only.)
+	for i, p := range v.Parts {
+		alone, _ := callToUnicode(b2s(p.C), v.Ding)
+		one := aglVector{Parts: v.Parts[i : i+1]}
+		if !sameInts(alone, variantOf(&one, false, false)) && !sameInts(alone, variantOf(&one, true, true)) {
+			return "toUnicode mismatch [" + p.Cls + " component]"
 		}
 	}
-	kind := "single"
-	if len(v.Parts) > 1 {
-		kind = "composite"
-	}
-	return "toUnicode mismatch [" + kind + ":" + strings.Join(ks, "+") + "]"
+	return "toUnicode mismatch [composition]"
 }
 
 func aglWhat(sig string) string {
